@@ -16,9 +16,10 @@ Ev == EvAt(tid, l)
 Hd == EvAt(tid, 1)
 
 TraceInit == /\ tid \in 1..NTraces /\ l = 2
-             /\ kind = Hd.kind /\ phase = "run"
+             /\ kind = Hd.kind /\ phase = "run" /\ plan = "none" /\ bad = 1
              /\ script = [c \in Conns |-> Hd.script[c]]
-             /\ wire = [c \in Conns |-> Hd.wire[c]]
+             /\ wire = [c \in Conns |-> <<>>]
+             /\ wlen = [c \in Conns |-> Len(Hd.wire[c])]
              /\ mutated = [c \in Conns |-> Hd.mutated[c]]
              /\ nmut = 0
              /\ sent = [c \in Conns |-> 0] /\ pieces = [c \in Conns |-> 0]
